@@ -766,6 +766,28 @@ func (c *Ctx) lookupGuard(fn *ssa.Function, field string, key ssa.Value, b *ssa.
 			return
 		}
 		if !ir.HoldsAt(okv, false, b) {
+			// through a helper that answers "not there" for an empty index without looking: every way to the
+			// insert crosses the not-found edge or an edge on which the index is empty
+			cut := map[ir.Edge]bool{}
+			for _, e := range ir.EdgesWhere(fn, okv, false) {
+				cut[ir.Edge{From: e.From, To: e.To}] = true
+			}
+			for _, e := range lenOnlyZeroEdgesP(fn, func(x ssa.Value) bool { return c.cmdFieldLoad(x, field) }) {
+				cut[e] = true
+			}
+			if ir.Reach(fn.Blocks[0], nil, cut)[b] {
+				return
+			}
+			// the found outcome panics: the flag the helper hands back is true only on the found edge
+			for _, e := range ir.EdgesWhere(fn, okv, true) {
+				for blk := range ir.ReachVia(e.From, e.To, nil, nil) {
+					if blk == b {
+						why = "the found edge of the duplicate check does not panic"
+						return
+					}
+				}
+			}
+			found = true
 			return
 		}
 		// found edge must panic on all paths
@@ -1351,6 +1373,12 @@ func decl5validator(c *Ctx, fn *ssa.Function) {
 			}
 			if bo, ok := isKindTest(val); ok && r.Holds(bo, false) {
 				good = true
+			}
+			// the name found equal to one fixed word (the reserved OPTIONS): a refusal of that single name
+			if bo, isBo := val.(*ssa.BinOp); isBo && (bo.Op == token.EQL || bo.Op == token.NEQ) && bo.X == ssa.Value(fn.Params[0]) {
+				if _, isK := ir.ConstString(bo.Y); isK && r.Holds(bo, bo.Op == token.EQL) {
+					good = true
+				}
 			}
 			if bo, isBo := val.(*ssa.BinOp); isBo && ir.IsNilConst(bo.Y) && (bo.Op == token.EQL || bo.Op == token.NEQ) {
 				if ld, isLd := bo.X.(*ssa.UnOp); isLd && ld.Op == token.MUL {
